@@ -247,6 +247,10 @@ func (g *G) outputExpr() string {
 				t = g.typ("struct")
 			}
 			usedT[t.Name] = true
+			if len(usedT) > 1 && g.R.Chance(1, 2) {
+				// asterisk and named targets mixed in one list
+				return "&" + t.Name + "." + g.tag(t)
+			}
 			return "&" + t.Name + ".*"
 		})
 		pre := "*"
